@@ -8,7 +8,8 @@ VERIF = os.path.dirname(os.path.dirname(os.path.abspath(__file__)))
 
 
 def sh(cmd, cwd=None):
-    return subprocess.run(cmd, shell=True, cwd=cwd, capture_output=True, text=True)
+    env = dict(os.environ, JRSA_EVIDENCE_DIR="/var/tmp/jrsa-scratch-evidence")
+    return subprocess.run(cmd, shell=True, cwd=cwd, capture_output=True, text=True, env=env)
 
 
 def main():
